@@ -195,6 +195,8 @@ def touched_fields(f):
                     visit(a[1])
                     if len(a[1]) == 1 and a[1][0] in selfs and not blk.get("c"):
                         c = cn(t)
+                        if c.split("::")[-1] == "finalize":
+                            continue   # run_finalizer's own Finalize::finalize(self)
                         # passing self whole to something that is not a plain accessor: assume it may visit anything
                         whole = True
     return out, whole
